@@ -235,7 +235,8 @@ def _shrink_plan_candidates(plan, recorded, cid, op_idx):
     c = plan['clients'][cid]
     one = copy.deepcopy(plan)
     one['clients'] = [dict(copy.deepcopy(c), cid=0, ops=[copy.deepcopy(c['ops'][op_idx])])]
-    ck = {'cache_keys': recorded.get('cache_keys')} if recorded and recorded.get('cache_keys') is not None else None
+    ck = ({'cache_keys': recorded.get('cache_keys'), 'cache_origins': recorded.get('cache_origins')}
+          if recorded and recorded.get('cache_keys') is not None else None)
     yield one, ck, 0, 0
     # 2. only the failing client
     onec = copy.deepcopy(plan)
@@ -254,7 +255,7 @@ def _shrink_plan_candidates(plan, recorded, cid, op_idx):
             p['clients'] = keep
             rec = None
             if recorded:
-                rec = {'first': remap.get(recorded.get('first', 0), 0), 'cache_keys': recorded.get('cache_keys'),
+                rec = {'first': remap.get(recorded.get('first', 0), 0), 'cache_keys': recorded.get('cache_keys'), 'cache_origins': recorded.get('cache_origins'),
                        'switches': [[remap[s[0]], s[1], s[2], remap[s[3]], s[4], s[5]] for s in (recorded.get('switches') or [])
                                     if s[0] in remap and s[3] in remap],
                        'finishes': [[remap[f[0]], remap.get(f[1])] for f in (recorded.get('finishes') or []) if f[0] in remap],
